@@ -96,6 +96,37 @@ Proof.
   - rewrite <- IH. symmetry; apply deriv_correct.
 Qed.
 
+Lemma replaced_spans_wf : forall t, wf_spans 0 (length t) (replaced_spans t).
+Proof.
+  intros t. unfold replaced_spans. rewrite the_full_eq.
+  apply (spans_wf pat_L pat_A pat_R c_sfL c_lenL c_nullA c_afA c_gR (S (length t)) t 0).
+Qed.
+
+(* writer and scrubber together: whatever the splitting into writes, the sink receives, for every
+   complete line of the stream and in order, that line with its replaced spans substituted, and every
+   delimited address occurrence in every line is hit by one of these spans *)
+Lemma end_to_end : forall ws outs pend,
+  run_writes (write (scrub full_patterns)) [] ws = (outs, pend) ->
+  exists lines,
+    outs = map (fun l => render l 0 (replaced_spans l)) lines /\
+    Forall is_line lines /\ concat lines ++ pend = concat ws /\ no_nl pend /\
+    forall l pre w post, In l lines -> l = pre ++ w ++ post ->
+      matches addr_spec w -> left_ok pre -> right_ok post ->
+      exists a b, In (a, b) (replaced_spans l) /\ a < length pre + length w /\ length pre < b.
+Proof.
+  intros ws outs pend H.
+  destruct (write_complete_lines (scrub full_patterns) ws outs pend H) as (lines & Ho & Hl & Hc & Hp).
+  exists lines. repeat split; auto.
+  - rewrite Ho. apply map_ext. intros l; apply scrub_render.
+  - intros l pre w post _ El Hw Hlo Hro. subst l. apply hides_all; auto.
+Qed.
+
+Lemma scrub_fuel_irrelevant : forall t f, length t < f -> scrub full_patterns t = scrub_loop f the_full t.
+Proof.
+  intros t f Hf. rewrite scrub_is_scrub1. unfold scrub1. rewrite the_full_eq.
+  apply (scrub_loop_fuel pat_L pat_A pat_R c_sfL c_lenL c_nullA c_afA c_gR); lia.
+Qed.
+
 (* ---------------------------------------------------------------- lines keep their newline *)
 
 Lemma scrub_keeps_newline : forall l, is_line l -> exists body', scrub full_patterns l = body' ++ [NL].
